@@ -338,3 +338,17 @@ prop(
                  "multitree node counts are not part of this check (entry counts of multitree columns: C10)"],
     explanation="a checker for raw value-table dumps (free-list walk, chain walks, every slot exactly once) proved sound for all dumps; the btree half is the proved checker of C04",
 )
+
+prop(
+    id="C18", module="Properties.C18", vfile="Properties/C18.v", level="proof", subcmd="c18",
+    theorems=["C18_at_most_one_live_handle", "C18_second_open_fails_and_changes_nothing", "C18_reopen_after_drop_or_death", "C18_only_the_holder_changes_the_directory"],
+    counts={"quick": 640, "thorough": 40000, "search": 3200},
+    rule="4-14 steps per history on one directory: single open attempts (by a thread of the harness process or by a child process started from the same binary), races of 2-4 open attempts "
+         "(threads released by a barrier plus child processes started together), drops (from another thread / by command to the child), kills of the child process holding the handle "
+         "(leaving synced, un-enacted log records: the next open has to recover, also inside a race), writes through the holder; after every refused attempt the directory (names, sizes, CRC of "
+         "every file) must be unchanged; at the end everything is released, the directory must open and hold the last write. A history is non-trivial when at least one attempt met a live handle "
+         "or raced another",
+    assumptions=["the lock is flock on the lock file (per open file description, released by the kernel at process death); NFS-like file systems without flock semantics are outside",
+                 "races are judged by the number of winners (exactly one without a holder, none with one); which attempt wins is not compared"],
+    explanation="a lock protocol model (holder, content); theorems for every history: at most one live handle, a refused open is inert, release re-enables opening",
+)
